@@ -13,574 +13,577 @@ then searches for a failing input with more seeds.
 namespace CV.Bridge.CoinswapFacts
 open CV
 
+-- parameters, receivers and locals are alpha-normalised by factx (p1…, v1… in order of declaration):
+-- renaming a variable does not disturb the facts
+
 theorem msgAddLiquidity_guards : Gen.Coinswap.msgAddLiquidity_guards = [
-    "err: err := types.ValidateMaxToken(msg.MaxToken)",
-    "err: err := types.ValidateExactStandardAmt(msg.ExactStandardAmt)",
-    "err: err := types.ValidateMinLiquidity(msg.MinLiquidity)",
-    "err: err := types.ValidateDeadline(msg.Deadline)",
-    "err: _, err := sdk.AccAddressFromBech32(msg.Sender)",
-    "ctx.BlockHeader().Time.After(time.Unix(msg.Deadline, 0))"] := rfl
+    "err: v1 := types.ValidateMaxToken(p3.MaxToken)",
+    "err: v1 := types.ValidateExactStandardAmt(p3.ExactStandardAmt)",
+    "err: v1 := types.ValidateMinLiquidity(p3.MinLiquidity)",
+    "err: v1 := types.ValidateDeadline(p3.Deadline)",
+    "err: _, v1 := sdk.AccAddressFromBech32(p3.Sender)",
+    "v2.BlockHeader().Time.After(time.Unix(p3.Deadline, 0))"] := rfl
 theorem msgAddLiquidity_calls : Gen.Coinswap.msgAddLiquidity_calls = [
-    "types.ValidateMaxToken(msg.MaxToken)",
-    "types.ValidateExactStandardAmt(msg.ExactStandardAmt)",
-    "types.ValidateMinLiquidity(msg.MinLiquidity)",
-    "types.ValidateDeadline(msg.Deadline)",
-    "sdk.AccAddressFromBech32(msg.Sender)",
-    "m.Keeper.AddLiquidity(ctx, msg)"] := rfl
+    "types.ValidateMaxToken(p3.MaxToken)",
+    "types.ValidateExactStandardAmt(p3.ExactStandardAmt)",
+    "types.ValidateMinLiquidity(p3.MinLiquidity)",
+    "types.ValidateDeadline(p3.Deadline)",
+    "sdk.AccAddressFromBech32(p3.Sender)",
+    "p1.Keeper.AddLiquidity(v2, p3)"] := rfl
 theorem msgAddLiquidity_stmts : Gen.Coinswap.msgAddLiquidity_stmts = [
-    "return nil, err",
-    "return nil, err",
-    "return nil, err",
-    "return nil, err",
-    "_, err := sdk.AccAddressFromBech32(msg.Sender)",
-    "return nil, errorsmod.Wrapf(sdkerrors.ErrInvalidAddress, \"invalid sender address (%s)\", err)",
-    "ctx := sdk.UnwrapSDKContext(goCtx)",
+    "return nil, v1",
+    "return nil, v1",
+    "return nil, v1",
+    "return nil, v1",
+    "_, v1 := sdk.AccAddressFromBech32(p3.Sender)",
+    "return nil, errorsmod.Wrapf(sdkerrors.ErrInvalidAddress, \"invalid sender address (%s)\", v1)",
+    "v2 := sdk.UnwrapSDKContext(p2)",
     "return nil, errorsmod.Wrap(types.ErrInvalidDeadline, \"deadline has passed for MsgAddLiquidity\")",
-    "mintToken, err := m.Keeper.AddLiquidity(ctx, msg)",
-    "return nil, err",
-    "return &types.MsgAddLiquidityResponse{ MintToken: &mintToken, }, nil"] := rfl
+    "v3, v1 := p1.Keeper.AddLiquidity(v2, p3)",
+    "return nil, v1",
+    "return &types.MsgAddLiquidityResponse{ MintToken: &v3, }, nil"] := rfl
 
 theorem msgRemoveLiquidity_guards : Gen.Coinswap.msgRemoveLiquidity_guards = [
-    "err: err := types.ValidateMinToken(msg.MinToken)",
-    "err: err := types.ValidateWithdrawLiquidity(msg.WithdrawLiquidity)",
-    "err: err := types.ValidateMinStandardAmt(msg.MinStandardAmt)",
-    "err: err := types.ValidateDeadline(msg.Deadline)",
-    "err: _, err := sdk.AccAddressFromBech32(msg.Sender)",
-    "ctx.BlockHeader().Time.After(time.Unix(msg.Deadline, 0))"] := rfl
+    "err: v1 := types.ValidateMinToken(p3.MinToken)",
+    "err: v1 := types.ValidateWithdrawLiquidity(p3.WithdrawLiquidity)",
+    "err: v1 := types.ValidateMinStandardAmt(p3.MinStandardAmt)",
+    "err: v1 := types.ValidateDeadline(p3.Deadline)",
+    "err: _, v1 := sdk.AccAddressFromBech32(p3.Sender)",
+    "v2.BlockHeader().Time.After(time.Unix(p3.Deadline, 0))"] := rfl
 theorem msgRemoveLiquidity_calls : Gen.Coinswap.msgRemoveLiquidity_calls = [
-    "types.ValidateMinToken(msg.MinToken)",
-    "types.ValidateWithdrawLiquidity(msg.WithdrawLiquidity)",
-    "types.ValidateMinStandardAmt(msg.MinStandardAmt)",
-    "types.ValidateDeadline(msg.Deadline)",
-    "sdk.AccAddressFromBech32(msg.Sender)",
-    "m.Keeper.RemoveLiquidity(ctx, msg)"] := rfl
+    "types.ValidateMinToken(p3.MinToken)",
+    "types.ValidateWithdrawLiquidity(p3.WithdrawLiquidity)",
+    "types.ValidateMinStandardAmt(p3.MinStandardAmt)",
+    "types.ValidateDeadline(p3.Deadline)",
+    "sdk.AccAddressFromBech32(p3.Sender)",
+    "p1.Keeper.RemoveLiquidity(v2, p3)"] := rfl
 theorem msgRemoveLiquidity_stmts : Gen.Coinswap.msgRemoveLiquidity_stmts = [
-    "return nil, err",
-    "return nil, err",
-    "return nil, err",
-    "return nil, err",
-    "_, err := sdk.AccAddressFromBech32(msg.Sender)",
-    "return nil, errorsmod.Wrapf(sdkerrors.ErrInvalidAddress, \"invalid sender address (%s)\", err)",
-    "ctx := sdk.UnwrapSDKContext(goCtx)",
+    "return nil, v1",
+    "return nil, v1",
+    "return nil, v1",
+    "return nil, v1",
+    "_, v1 := sdk.AccAddressFromBech32(p3.Sender)",
+    "return nil, errorsmod.Wrapf(sdkerrors.ErrInvalidAddress, \"invalid sender address (%s)\", v1)",
+    "v2 := sdk.UnwrapSDKContext(p2)",
     "return nil, errorsmod.Wrap(types.ErrInvalidDeadline, \"deadline has passed for MsgRemoveLiquidity\")",
-    "withdrawCoins, err := m.Keeper.RemoveLiquidity(ctx, msg)",
-    "return nil, err",
-    "coin := coin",
-    "coins = append(coins, &coin)",
-    "return &types.MsgRemoveLiquidityResponse{ WithdrawCoins: coins, }, nil"] := rfl
+    "v3, v1 := p1.Keeper.RemoveLiquidity(v2, p3)",
+    "return nil, v1",
+    "v5 := v5",
+    "v4 = append(v4, &v5)",
+    "return &types.MsgRemoveLiquidityResponse{ WithdrawCoins: v4, }, nil"] := rfl
 
 theorem msgSwapCoin_guards : Gen.Coinswap.msgSwapCoin_guards = [
-    "err: err := types.ValidateInput(msg.Input)",
-    "err: err := types.ValidateOutput(msg.Output)",
-    "msg.Input.Coin.Denom == msg.Output.Coin.Denom",
-    "err: err := types.ValidateDeadline(msg.Deadline)",
-    "ctx.BlockHeader().Time.After(time.Unix(msg.Deadline, 0))",
-    "m.Keeper.blockedAddrs[outputAddr.String()]",
-    "err: err := m.Keeper.Swap(ctx, msg)"] := rfl
+    "err: v1 := types.ValidateInput(p3.Input)",
+    "err: v1 := types.ValidateOutput(p3.Output)",
+    "p3.Input.Coin.Denom == p3.Output.Coin.Denom",
+    "err: v1 := types.ValidateDeadline(p3.Deadline)",
+    "v2.BlockHeader().Time.After(time.Unix(p3.Deadline, 0))",
+    "p1.Keeper.blockedAddrs[v3.String()]",
+    "err: v1 := p1.Keeper.Swap(v2, p3)"] := rfl
 theorem msgSwapCoin_calls : Gen.Coinswap.msgSwapCoin_calls = [
-    "types.ValidateInput(msg.Input)",
-    "types.ValidateOutput(msg.Output)",
-    "types.ValidateDeadline(msg.Deadline)",
-    "sdk.AccAddressFromBech32(msg.Output.Address)",
-    "m.Keeper.Swap(ctx, msg)"] := rfl
+    "types.ValidateInput(p3.Input)",
+    "types.ValidateOutput(p3.Output)",
+    "types.ValidateDeadline(p3.Deadline)",
+    "sdk.AccAddressFromBech32(p3.Output.Address)",
+    "p1.Keeper.Swap(v2, p3)"] := rfl
 theorem msgSwapCoin_stmts : Gen.Coinswap.msgSwapCoin_stmts = [
-    "return nil, err",
-    "return nil, err",
+    "return nil, v1",
+    "return nil, v1",
     "return nil, errorsmod.Wrap(types.ErrEqualDenom, \"invalid swap\")",
-    "return nil, err",
-    "ctx := sdk.UnwrapSDKContext(goCtx)",
+    "return nil, v1",
+    "v2 := sdk.UnwrapSDKContext(p2)",
     "return nil, errorsmod.Wrap(types.ErrInvalidDeadline, \"deadline has passed for MsgSwapOrder\")",
-    "outputAddr, err := sdk.AccAddressFromBech32(msg.Output.Address)",
-    "return nil, errorsmod.Wrapf(sdkerrors.ErrInvalidAddress, \"invalid output address (%s)\", err)",
-    "return nil, errorsmod.Wrapf(sdkerrors.ErrUnauthorized, \"%s is not allowed to receive external funds\", msg.Output.Address)",
-    "return nil, err",
+    "v3, v1 := sdk.AccAddressFromBech32(p3.Output.Address)",
+    "return nil, errorsmod.Wrapf(sdkerrors.ErrInvalidAddress, \"invalid output address (%s)\", v1)",
+    "return nil, errorsmod.Wrapf(sdkerrors.ErrUnauthorized, \"%s is not allowed to receive external funds\", p3.Output.Address)",
+    "return nil, v1",
     "return &types.MsgSwapCoinResponse{}, nil"] := rfl
 
 theorem swap_guards : Gen.Coinswap.swap_guards = [
-    "isDoubleSwap",
-    "msg.IsBuyOrder"] := rfl
+    "v4",
+    "p3.IsBuyOrder"] := rfl
 theorem swap_calls : Gen.Coinswap.swap_calls = [
-    "k.GetStandardDenom(ctx)",
-    "k.TradeInputForExactOutput(ctx, msg.Input, msg.Output)",
-    "k.TradeExactInputForOutput(ctx, msg.Input, msg.Output)",
-    "types.GetTokenPairByDenom(msg.Input.Coin.Denom, msg.Output.Coin.Denom)"] := rfl
+    "p1.GetStandardDenom(p2)",
+    "p1.TradeInputForExactOutput(p2, p3.Input, p3.Output)",
+    "p1.TradeExactInputForOutput(p2, p3.Input, p3.Output)",
+    "types.GetTokenPairByDenom(p3.Input.Coin.Denom, p3.Output.Coin.Denom)"] := rfl
 theorem swap_stmts : Gen.Coinswap.swap_stmts = [
-    "standardDenom, err := k.GetStandardDenom(ctx)",
-    "return err",
-    "isDoubleSwap := (msg.Input.Coin.Denom != standardDenom) && (msg.Output.Coin.Denom != standardDenom)",
+    "v3, v2 := p1.GetStandardDenom(p2)",
+    "return v2",
+    "v4 := (p3.Input.Coin.Denom != v3) && (p3.Output.Coin.Denom != v3)",
     "return errorsmod.Wrapf(types.ErrNotContainStandardDenom, \"unsupported swap: standard coin must be in either Input or Output\")",
-    "amount, err = k.TradeInputForExactOutput(ctx, msg.Input, msg.Output)",
-    "amount, err = k.TradeExactInputForOutput(ctx, msg.Input, msg.Output)",
-    "return err",
+    "v1, v2 = p1.TradeInputForExactOutput(p2, p3.Input, p3.Output)",
+    "v1, v2 = p1.TradeExactInputForOutput(p2, p3.Input, p3.Output)",
+    "return v2",
     "return nil"] := rfl
 
 theorem addLiquidity_guards : Gen.Coinswap.addLiquidity_guards = [
-    "standardDenom == msg.MaxToken.Denom",
-    "!params.MaxSwapAmount.AmountOf(msg.MaxToken.Denom).IsPositive()",
-    "!exists",
-    "err: err := k.DeductPoolCreationFee(ctx, sender)",
-    "mintLiquidityAmt.GT(params.MaxStandardCoinPerPool)",
-    "mintLiquidityAmt.LT(msg.MinLiquidity)",
-    "liquidity.Equal(sdkmath.ZeroInt())",
-    "mintLiquidityAmt.GT(params.MaxStandardCoinPerPool)",
-    "mintLiquidityAmt.LT(msg.MinLiquidity)",
-    "standardReserveAmt.GTE(params.MaxStandardCoinPerPool)",
-    "mintLiquidityAmt.LT(msg.MinLiquidity)",
-    "depositAmt.GT(msg.MaxToken.Amount)"] := rfl
+    "v1 == p3.MaxToken.Denom",
+    "!v3.MaxSwapAmount.AmountOf(p3.MaxToken.Denom).IsPositive()",
+    "!v9",
+    "err: v2 := p1.DeductPoolCreationFee(p2, v10)",
+    "v4.GT(v3.MaxStandardCoinPerPool)",
+    "v4.LT(p3.MinLiquidity)",
+    "v14.Equal(sdkmath.ZeroInt())",
+    "v4.GT(v3.MaxStandardCoinPerPool)",
+    "v4.LT(p3.MinLiquidity)",
+    "v12.GTE(v3.MaxStandardCoinPerPool)",
+    "v4.LT(p3.MinLiquidity)",
+    "v16.GT(p3.MaxToken.Amount)"] := rfl
 theorem addLiquidity_calls : Gen.Coinswap.addLiquidity_calls = [
-    "k.GetStandardDenom(ctx)",
-    "k.GetParams(ctx)",
-    "sdk.NewCoin(standardDenom, msg.ExactStandardAmt)",
-    "types.GetPoolId(msg.MaxToken.Denom)",
-    "k.GetPool(ctx, poolId)",
-    "sdk.AccAddressFromBech32(msg.Sender)",
-    "k.DeductPoolCreationFee(ctx, sender)",
-    "sdk.NewCoin(msg.MaxToken.Denom, msg.MaxToken.Amount)",
-    "k.CreatePool(ctx, msg.MaxToken.Denom)",
-    "k.GetPoolBalances(ctx, pool.EscrowAddress)",
-    "k.bk.GetSupply(ctx, pool.LptDenom)",
-    "sdk.NewCoin(msg.MaxToken.Denom, msg.MaxToken.Amount)",
-    "sdk.NewCoin(msg.MaxToken.Denom, depositAmt)",
-    "sdk.NewCoin(standardDenom, maxStandardInputAmt)",
-    "sdk.AccAddressFromBech32(pool.EscrowAddress)",
-    "types.GetTokenPairByDenom(msg.MaxToken.Denom, standardDenom)",
-    "k.addLiquidity(ctx, sender, reservePoolAddress, standardCoin, depositToken, pool.LptDenom, mintLiquidityAmt)"] := rfl
+    "p1.GetStandardDenom(p2)",
+    "p1.GetParams(p2)",
+    "sdk.NewCoin(v1, p3.ExactStandardAmt)",
+    "types.GetPoolId(p3.MaxToken.Denom)",
+    "p1.GetPool(p2, v7)",
+    "sdk.AccAddressFromBech32(p3.Sender)",
+    "p1.DeductPoolCreationFee(p2, v10)",
+    "sdk.NewCoin(p3.MaxToken.Denom, p3.MaxToken.Amount)",
+    "p1.CreatePool(p2, p3.MaxToken.Denom)",
+    "p1.GetPoolBalances(p2, v8.EscrowAddress)",
+    "p1.bk.GetSupply(p2, v8.LptDenom)",
+    "sdk.NewCoin(p3.MaxToken.Denom, p3.MaxToken.Amount)",
+    "sdk.NewCoin(p3.MaxToken.Denom, v16)",
+    "sdk.NewCoin(v1, v15)",
+    "sdk.AccAddressFromBech32(v8.EscrowAddress)",
+    "types.GetTokenPairByDenom(p3.MaxToken.Denom, v1)",
+    "p1.addLiquidity(p2, v10, v17, v6, v5, v8.LptDenom, v4)"] := rfl
 theorem addLiquidity_stmts : Gen.Coinswap.addLiquidity_stmts = [
-    "standardDenom, err := k.GetStandardDenom(ctx)",
-    "return sdk.Coin{}, err",
-    "return sdk.Coin{}, errorsmod.Wrapf(types.ErrInvalidDenom, \"MaxToken: %s should not be StandardDenom\", msg.MaxToken.String())",
-    "params := k.GetParams(ctx)",
-    "return sdk.Coin{}, errorsmod.Wrapf(types.ErrInvalidDenom, \"MaxToken %s is not registered in max swap amount\", msg.MaxToken.Denom)",
-    "poolId := types.GetPoolId(msg.MaxToken.Denom)",
-    "pool, exists := k.GetPool(ctx, poolId)",
-    "sender, err := sdk.AccAddressFromBech32(msg.Sender)",
-    "return sdk.Coin{}, err",
-    "return sdk.Coin{}, err",
-    "mintLiquidityAmt = msg.ExactStandardAmt",
-    "return sdk.Coin{}, errorsmod.Wrap(types.ErrMaxedStandardDenom, fmt.Sprintf(\"liquidity amount not met, max standard coin amount: no bigger than %s, actual: %s\", params.MaxStandardCoinPerPool.String(), mintLiquidityAmt.String()))",
-    "return sdk.Coin{}, errorsmod.Wrap(types.ErrConstraintNotMet, fmt.Sprintf(\"liquidity amount not met, user expected: no less than %s, actual: %s\", msg.MinLiquidity.String(), mintLiquidityAmt.String()))",
-    "depositToken = sdk.NewCoin(msg.MaxToken.Denom, msg.MaxToken.Amount)",
-    "pool = k.CreatePool(ctx, msg.MaxToken.Denom)",
-    "balances, err := k.GetPoolBalances(ctx, pool.EscrowAddress)",
-    "return sdk.Coin{}, err",
-    "standardReserveAmt := balances.AmountOf(standardDenom)",
-    "tokenReserveAmt := balances.AmountOf(msg.MaxToken.Denom)",
-    "liquidity := k.bk.GetSupply(ctx, pool.LptDenom).Amount",
-    "mintLiquidityAmt = msg.ExactStandardAmt",
-    "return sdk.Coin{}, errorsmod.Wrap(types.ErrMaxedStandardDenom, fmt.Sprintf(\"liquidity amount not met, max standard coin amount: no bigger than %s, actual: %s\", params.MaxStandardCoinPerPool.String(), mintLiquidityAmt.String()))",
-    "return sdk.Coin{}, errorsmod.Wrap(types.ErrConstraintNotMet, fmt.Sprintf(\"liquidity amount not met, user expected: no less than %s, actual: %s\", msg.MinLiquidity.String(), mintLiquidityAmt.String()))",
-    "depositToken = sdk.NewCoin(msg.MaxToken.Denom, msg.MaxToken.Amount)",
-    "return sdk.Coin{}, errorsmod.Wrap(types.ErrMaxedStandardDenom, fmt.Sprintf(\"pool standard coin is maxed out: %s\", params.MaxStandardCoinPerPool.String()))",
-    "maxStandardInputAmt := sdkmath.MinInt(msg.ExactStandardAmt, params.MaxStandardCoinPerPool.Sub(standardReserveAmt))",
-    "mintLiquidityAmt = (liquidity.Mul(maxStandardInputAmt)).Quo(standardReserveAmt)",
-    "return sdk.Coin{}, errorsmod.Wrap(types.ErrConstraintNotMet, fmt.Sprintf(\"liquidity amount not met, user expected: no less than %s, actual: %s\", msg.MinLiquidity.String(), mintLiquidityAmt.String()))",
-    "depositAmt := (tokenReserveAmt.Mul(maxStandardInputAmt)).Quo(standardReserveAmt).AddRaw(1)",
-    "depositToken = sdk.NewCoin(msg.MaxToken.Denom, depositAmt)",
-    "standardCoin = sdk.NewCoin(standardDenom, maxStandardInputAmt)",
-    "return sdk.Coin{}, errorsmod.Wrap(types.ErrConstraintNotMet, fmt.Sprintf(\"token amount not met, user expected: no more than %s, actual: %s\", msg.MaxToken.String(), depositToken.String()))",
-    "reservePoolAddress, err := sdk.AccAddressFromBech32(pool.EscrowAddress)",
-    "return sdk.Coin{}, err",
-    "return k.addLiquidity(ctx, sender, reservePoolAddress, standardCoin, depositToken, pool.LptDenom, mintLiquidityAmt)"] := rfl
+    "v1, v2 := p1.GetStandardDenom(p2)",
+    "return sdk.Coin{}, v2",
+    "return sdk.Coin{}, errorsmod.Wrapf(types.ErrInvalidDenom, \"MaxToken: %s should not be StandardDenom\", p3.MaxToken.String())",
+    "v3 := p1.GetParams(p2)",
+    "return sdk.Coin{}, errorsmod.Wrapf(types.ErrInvalidDenom, \"MaxToken %s is not registered in max swap amount\", p3.MaxToken.Denom)",
+    "v7 := types.GetPoolId(p3.MaxToken.Denom)",
+    "v8, v9 := p1.GetPool(p2, v7)",
+    "v10, v2 := sdk.AccAddressFromBech32(p3.Sender)",
+    "return sdk.Coin{}, v2",
+    "return sdk.Coin{}, v2",
+    "v4 = p3.ExactStandardAmt",
+    "return sdk.Coin{}, errorsmod.Wrap(types.ErrMaxedStandardDenom, fmt.Sprintf(\"liquidity amount not met, max standard coin amount: no bigger than %s, actual: %s\", v3.MaxStandardCoinPerPool.String(), v4.String()))",
+    "return sdk.Coin{}, errorsmod.Wrap(types.ErrConstraintNotMet, fmt.Sprintf(\"liquidity amount not met, user expected: no less than %s, actual: %s\", p3.MinLiquidity.String(), v4.String()))",
+    "v5 = sdk.NewCoin(p3.MaxToken.Denom, p3.MaxToken.Amount)",
+    "v8 = p1.CreatePool(p2, p3.MaxToken.Denom)",
+    "v11, v2 := p1.GetPoolBalances(p2, v8.EscrowAddress)",
+    "return sdk.Coin{}, v2",
+    "v12 := v11.AmountOf(v1)",
+    "v13 := v11.AmountOf(p3.MaxToken.Denom)",
+    "v14 := p1.bk.GetSupply(p2, v8.LptDenom).Amount",
+    "v4 = p3.ExactStandardAmt",
+    "return sdk.Coin{}, errorsmod.Wrap(types.ErrMaxedStandardDenom, fmt.Sprintf(\"liquidity amount not met, max standard coin amount: no bigger than %s, actual: %s\", v3.MaxStandardCoinPerPool.String(), v4.String()))",
+    "return sdk.Coin{}, errorsmod.Wrap(types.ErrConstraintNotMet, fmt.Sprintf(\"liquidity amount not met, user expected: no less than %s, actual: %s\", p3.MinLiquidity.String(), v4.String()))",
+    "v5 = sdk.NewCoin(p3.MaxToken.Denom, p3.MaxToken.Amount)",
+    "return sdk.Coin{}, errorsmod.Wrap(types.ErrMaxedStandardDenom, fmt.Sprintf(\"pool standard coin is maxed out: %s\", v3.MaxStandardCoinPerPool.String()))",
+    "v15 := sdkmath.MinInt(p3.ExactStandardAmt, v3.MaxStandardCoinPerPool.Sub(v12))",
+    "v4 = (v14.Mul(v15)).Quo(v12)",
+    "return sdk.Coin{}, errorsmod.Wrap(types.ErrConstraintNotMet, fmt.Sprintf(\"liquidity amount not met, user expected: no less than %s, actual: %s\", p3.MinLiquidity.String(), v4.String()))",
+    "v16 := (v13.Mul(v15)).Quo(v12).AddRaw(1)",
+    "v5 = sdk.NewCoin(p3.MaxToken.Denom, v16)",
+    "v6 = sdk.NewCoin(v1, v15)",
+    "return sdk.Coin{}, errorsmod.Wrap(types.ErrConstraintNotMet, fmt.Sprintf(\"token amount not met, user expected: no more than %s, actual: %s\", p3.MaxToken.String(), v5.String()))",
+    "v17, v2 := sdk.AccAddressFromBech32(v8.EscrowAddress)",
+    "return sdk.Coin{}, v2",
+    "return p1.addLiquidity(p2, v10, v17, v6, v5, v8.LptDenom, v4)"] := rfl
 
 theorem addLiquidityInner_guards : Gen.Coinswap.addLiquidityInner_guards = [
-    "err: err := k.bk.SendCoins(ctx, sender, reservePoolAddress, depositedTokens)",
-    "err: err := k.bk.MintCoins(ctx, types.ModuleName, mintTokens)",
-    "err: err := k.bk.SendCoinsFromModuleToAccount(ctx, types.ModuleName, sender, mintTokens)"] := rfl
+    "err: v2 := p1.bk.SendCoins(p2, p3, p4, v1)",
+    "err: v2 := p1.bk.MintCoins(p2, types.ModuleName, v4)",
+    "err: v2 := p1.bk.SendCoinsFromModuleToAccount(p2, types.ModuleName, p3, v4)"] := rfl
 theorem addLiquidityInner_calls : Gen.Coinswap.addLiquidityInner_calls = [
-    "sdk.NewCoins(standardCoin, token)",
-    "k.bk.SendCoins(ctx, sender, reservePoolAddress, depositedTokens)",
-    "sdk.NewCoin(lptDenom, mintLiquidityAmt)",
-    "sdk.NewCoins(mintToken)",
-    "k.bk.MintCoins(ctx, types.ModuleName, mintTokens)",
-    "k.bk.SendCoinsFromModuleToAccount(ctx, types.ModuleName, sender, mintTokens)"] := rfl
+    "sdk.NewCoins(p5, p6)",
+    "p1.bk.SendCoins(p2, p3, p4, v1)",
+    "sdk.NewCoin(p7, p8)",
+    "sdk.NewCoins(v3)",
+    "p1.bk.MintCoins(p2, types.ModuleName, v4)",
+    "p1.bk.SendCoinsFromModuleToAccount(p2, types.ModuleName, p3, v4)"] := rfl
 theorem addLiquidityInner_stmts : Gen.Coinswap.addLiquidityInner_stmts = [
-    "depositedTokens := sdk.NewCoins(standardCoin, token)",
-    "return sdk.Coin{}, err",
-    "mintToken := sdk.NewCoin(lptDenom, mintLiquidityAmt)",
-    "mintTokens := sdk.NewCoins(mintToken)",
-    "return sdk.Coin{}, err",
-    "return sdk.Coin{}, err",
-    "return mintToken, nil"] := rfl
+    "v1 := sdk.NewCoins(p5, p6)",
+    "return sdk.Coin{}, v2",
+    "v3 := sdk.NewCoin(p7, p8)",
+    "v4 := sdk.NewCoins(v3)",
+    "return sdk.Coin{}, v2",
+    "return sdk.Coin{}, v2",
+    "return v3, nil"] := rfl
 
 theorem removeLiquidity_guards : Gen.Coinswap.removeLiquidity_guards = [
-    "!exists",
-    "standardReserveAmt.LT(msg.MinStandardAmt)",
-    "tokenReserveAmt.LT(msg.MinToken)",
-    "liquidityReserve.LT(msg.WithdrawLiquidity.Amount)",
-    "standardWithdrawCoin.Amount.LT(msg.MinStandardAmt)",
-    "tokenWithdrawCoin.Amount.LT(msg.MinToken)"] := rfl
+    "!v4",
+    "v8.LT(p3.MinStandardAmt)",
+    "v9.LT(p3.MinToken)",
+    "v10.LT(p3.WithdrawLiquidity.Amount)",
+    "v13.Amount.LT(p3.MinStandardAmt)",
+    "v14.Amount.LT(p3.MinToken)"] := rfl
 theorem removeLiquidity_calls : Gen.Coinswap.removeLiquidity_calls = [
-    "k.GetStandardDenom(ctx)",
-    "k.GetPoolByLptDenom(ctx, msg.WithdrawLiquidity.Denom)",
-    "k.GetPoolBalances(ctx, pool.EscrowAddress)",
-    "k.bk.GetSupply(ctx, lptDenom)",
-    "sdk.NewCoin(standardDenom, standardWithdrawAmt)",
-    "sdk.NewCoin(minTokenDenom, tokenWithdrawnAmt)",
-    "sdk.NewCoin(standardDenom, msg.MinStandardAmt).String()",
-    "sdk.NewCoin(standardDenom, msg.MinStandardAmt)",
-    "sdk.NewCoin(minTokenDenom, msg.MinToken).String()",
-    "sdk.NewCoin(minTokenDenom, msg.MinToken)",
-    "types.GetTokenPairByDenom(minTokenDenom, standardDenom)",
-    "sdk.AccAddressFromBech32(msg.Sender)",
-    "sdk.AccAddressFromBech32(pool.EscrowAddress)",
-    "k.removeLiquidity(ctx, poolAddr, sender, deductUniCoin, standardWithdrawCoin, tokenWithdrawCoin)"] := rfl
+    "p1.GetStandardDenom(p2)",
+    "p1.GetPoolByLptDenom(p2, p3.WithdrawLiquidity.Denom)",
+    "p1.GetPoolBalances(p2, v3.EscrowAddress)",
+    "p1.bk.GetSupply(p2, v6)",
+    "sdk.NewCoin(v1, v11)",
+    "sdk.NewCoin(v7, v12)",
+    "sdk.NewCoin(v1, p3.MinStandardAmt).String()",
+    "sdk.NewCoin(v1, p3.MinStandardAmt)",
+    "sdk.NewCoin(v7, p3.MinToken).String()",
+    "sdk.NewCoin(v7, p3.MinToken)",
+    "types.GetTokenPairByDenom(v7, v1)",
+    "sdk.AccAddressFromBech32(p3.Sender)",
+    "sdk.AccAddressFromBech32(v3.EscrowAddress)",
+    "p1.removeLiquidity(p2, v17, v16, v15, v13, v14)"] := rfl
 theorem removeLiquidity_stmts : Gen.Coinswap.removeLiquidity_stmts = [
-    "standardDenom, err := k.GetStandardDenom(ctx)",
-    "return nil, err",
-    "pool, exists := k.GetPoolByLptDenom(ctx, msg.WithdrawLiquidity.Denom)",
-    "return nil, errorsmod.Wrapf(types.ErrReservePoolNotExists, \"liquidity pool token: %s\", msg.WithdrawLiquidity.Denom)",
-    "balances, err := k.GetPoolBalances(ctx, pool.EscrowAddress)",
-    "return nil, err",
-    "lptDenom := msg.WithdrawLiquidity.Denom",
-    "minTokenDenom := pool.CounterpartyDenom",
-    "standardReserveAmt := balances.AmountOf(standardDenom)",
-    "tokenReserveAmt := balances.AmountOf(minTokenDenom)",
-    "liquidityReserve := k.bk.GetSupply(ctx, lptDenom).Amount",
-    "return nil, errorsmod.Wrap(types.ErrInsufficientFunds, fmt.Sprintf(\"insufficient %s funds, user expected: %s, actual: %s\", standardDenom, msg.MinStandardAmt.String(), standardReserveAmt.String()))",
-    "return nil, errorsmod.Wrap(types.ErrInsufficientFunds, fmt.Sprintf(\"insufficient %s funds, user expected: %s, actual: %s\", minTokenDenom, msg.MinToken.String(), tokenReserveAmt.String()))",
-    "return nil, errorsmod.Wrap(types.ErrInsufficientFunds, fmt.Sprintf(\"insufficient %s funds, user expected: %s, actual: %s\", lptDenom, msg.WithdrawLiquidity.Amount.String(), liquidityReserve.String()))",
-    "standardWithdrawAmt := msg.WithdrawLiquidity.Amount.Mul(standardReserveAmt).Quo(liquidityReserve)",
-    "tokenWithdrawnAmt := msg.WithdrawLiquidity.Amount.Mul(tokenReserveAmt).Quo(liquidityReserve)",
-    "standardWithdrawCoin := sdk.NewCoin(standardDenom, standardWithdrawAmt)",
-    "tokenWithdrawCoin := sdk.NewCoin(minTokenDenom, tokenWithdrawnAmt)",
-    "deductUniCoin := msg.WithdrawLiquidity",
-    "return nil, errorsmod.Wrap(types.ErrConstraintNotMet, fmt.Sprintf(\"standard coin amount not met, user expected: no less than %s, actual: %s\", sdk.NewCoin(standardDenom, msg.MinStandardAmt).String(), standardWithdrawCoin.String()))",
-    "return nil, errorsmod.Wrap(types.ErrConstraintNotMet, fmt.Sprintf(\"token amount not met, user expected: no less than %s, actual: %s\", sdk.NewCoin(minTokenDenom, msg.MinToken).String(), tokenWithdrawCoin.String()))",
-    "sender, err := sdk.AccAddressFromBech32(msg.Sender)",
-    "return nil, err",
-    "poolAddr, err := sdk.AccAddressFromBech32(pool.EscrowAddress)",
-    "return nil, err",
-    "return k.removeLiquidity(ctx, poolAddr, sender, deductUniCoin, standardWithdrawCoin, tokenWithdrawCoin)"] := rfl
+    "v1, v2 := p1.GetStandardDenom(p2)",
+    "return nil, v2",
+    "v3, v4 := p1.GetPoolByLptDenom(p2, p3.WithdrawLiquidity.Denom)",
+    "return nil, errorsmod.Wrapf(types.ErrReservePoolNotExists, \"liquidity pool token: %s\", p3.WithdrawLiquidity.Denom)",
+    "v5, v2 := p1.GetPoolBalances(p2, v3.EscrowAddress)",
+    "return nil, v2",
+    "v6 := p3.WithdrawLiquidity.Denom",
+    "v7 := v3.CounterpartyDenom",
+    "v8 := v5.AmountOf(v1)",
+    "v9 := v5.AmountOf(v7)",
+    "v10 := p1.bk.GetSupply(p2, v6).Amount",
+    "return nil, errorsmod.Wrap(types.ErrInsufficientFunds, fmt.Sprintf(\"insufficient %s funds, user expected: %s, actual: %s\", v1, p3.MinStandardAmt.String(), v8.String()))",
+    "return nil, errorsmod.Wrap(types.ErrInsufficientFunds, fmt.Sprintf(\"insufficient %s funds, user expected: %s, actual: %s\", v7, p3.MinToken.String(), v9.String()))",
+    "return nil, errorsmod.Wrap(types.ErrInsufficientFunds, fmt.Sprintf(\"insufficient %s funds, user expected: %s, actual: %s\", v6, p3.WithdrawLiquidity.Amount.String(), v10.String()))",
+    "v11 := p3.WithdrawLiquidity.Amount.Mul(v8).Quo(v10)",
+    "v12 := p3.WithdrawLiquidity.Amount.Mul(v9).Quo(v10)",
+    "v13 := sdk.NewCoin(v1, v11)",
+    "v14 := sdk.NewCoin(v7, v12)",
+    "v15 := p3.WithdrawLiquidity",
+    "return nil, errorsmod.Wrap(types.ErrConstraintNotMet, fmt.Sprintf(\"standard coin amount not met, user expected: no less than %s, actual: %s\", sdk.NewCoin(v1, p3.MinStandardAmt).String(), v13.String()))",
+    "return nil, errorsmod.Wrap(types.ErrConstraintNotMet, fmt.Sprintf(\"token amount not met, user expected: no less than %s, actual: %s\", sdk.NewCoin(v7, p3.MinToken).String(), v14.String()))",
+    "v16, v2 := sdk.AccAddressFromBech32(p3.Sender)",
+    "return nil, v2",
+    "v17, v2 := sdk.AccAddressFromBech32(v3.EscrowAddress)",
+    "return nil, v2",
+    "return p1.removeLiquidity(p2, v17, v16, v15, v13, v14)"] := rfl
 
 theorem removeLiquidityInner_guards : Gen.Coinswap.removeLiquidityInner_guards = [
-    "err: err := k.bk.SendCoinsFromAccountToModule(ctx, sender, types.ModuleName, deltaCoins)",
-    "err: err := k.bk.BurnCoins(ctx, types.ModuleName, deltaCoins)"] := rfl
+    "err: v2 := p1.bk.SendCoinsFromAccountToModule(p2, p4, types.ModuleName, v1)",
+    "err: v2 := p1.bk.BurnCoins(p2, types.ModuleName, v1)"] := rfl
 theorem removeLiquidityInner_calls : Gen.Coinswap.removeLiquidityInner_calls = [
-    "sdk.NewCoins(deductUniCoin)",
-    "k.bk.SendCoinsFromAccountToModule(ctx, sender, types.ModuleName, deltaCoins)",
-    "k.bk.BurnCoins(ctx, types.ModuleName, deltaCoins)",
-    "sdk.NewCoins(standardWithdrawCoin, tokenWithdrawCoin)",
-    "k.bk.SendCoins(ctx, poolAddr, sender, coins)"] := rfl
+    "sdk.NewCoins(p5)",
+    "p1.bk.SendCoinsFromAccountToModule(p2, p4, types.ModuleName, v1)",
+    "p1.bk.BurnCoins(p2, types.ModuleName, v1)",
+    "sdk.NewCoins(p6, p7)",
+    "p1.bk.SendCoins(p2, p3, p4, v3)"] := rfl
 theorem removeLiquidityInner_stmts : Gen.Coinswap.removeLiquidityInner_stmts = [
-    "deltaCoins := sdk.NewCoins(deductUniCoin)",
-    "return nil, err",
-    "return nil, err",
-    "coins := sdk.NewCoins(standardWithdrawCoin, tokenWithdrawCoin)",
-    "return coins, k.bk.SendCoins(ctx, poolAddr, sender, coins)"] := rfl
+    "v1 := sdk.NewCoins(p5)",
+    "return nil, v2",
+    "return nil, v2",
+    "v3 := sdk.NewCoins(p6, p7)",
+    "return v3, p1.bk.SendCoins(p2, p3, p4, v3)"] := rfl
 
 theorem swapCoins_guards : Gen.Coinswap.swapCoins_guards = [
-    "err: err := k.bk.SendCoins(ctx, sender, poolAddr, sdk.NewCoins(coinSold))",
-    "recipient.Empty()"] := rfl
+    "err: v2 := p1.bk.SendCoins(p2, p3, v3, sdk.NewCoins(p5))",
+    "p4.Empty()"] := rfl
 theorem swapCoins_calls : Gen.Coinswap.swapCoins_calls = [
-    "k.GetLptDenomFromDenoms(ctx, coinSold.Denom, coinBought.Denom)",
-    "types.GetReservePoolAddr(lptDenom)",
-    "k.bk.SendCoins(ctx, sender, poolAddr, sdk.NewCoins(coinSold))",
-    "sdk.NewCoins(coinSold)",
-    "k.bk.SendCoins(ctx, poolAddr, recipient, sdk.NewCoins(coinBought))",
-    "sdk.NewCoins(coinBought)"] := rfl
+    "p1.GetLptDenomFromDenoms(p2, p5.Denom, p6.Denom)",
+    "types.GetReservePoolAddr(v1)",
+    "p1.bk.SendCoins(p2, p3, v3, sdk.NewCoins(p5))",
+    "sdk.NewCoins(p5)",
+    "p1.bk.SendCoins(p2, v3, p4, sdk.NewCoins(p6))",
+    "sdk.NewCoins(p6)"] := rfl
 theorem swapCoins_stmts : Gen.Coinswap.swapCoins_stmts = [
-    "lptDenom, err := k.GetLptDenomFromDenoms(ctx, coinSold.Denom, coinBought.Denom)",
-    "return err",
-    "poolAddr := types.GetReservePoolAddr(lptDenom)",
-    "return err",
-    "recipient = sender",
-    "return k.bk.SendCoins(ctx, poolAddr, recipient, sdk.NewCoins(coinBought))"] := rfl
+    "v1, v2 := p1.GetLptDenomFromDenoms(p2, p5.Denom, p6.Denom)",
+    "return v2",
+    "v3 := types.GetReservePoolAddr(v1)",
+    "return v2",
+    "p4 = p3",
+    "return p1.bk.SendCoins(p2, v3, p4, sdk.NewCoins(p6))"] := rfl
 
 theorem calculateWithExactInput_guards : Gen.Coinswap.calculateWithExactInput_guards = [
-    "!inputReserve.IsPositive()",
-    "!outputReserve.IsPositive()"] := rfl
+    "!v5.IsPositive()",
+    "!v6.IsPositive()"] := rfl
 theorem calculateWithExactInput_calls : Gen.Coinswap.calculateWithExactInput_calls = [
-    "k.GetLptDenomFromDenoms(ctx, exactSoldCoin.Denom, boughtTokenDenom)",
-    "types.GetReservePoolAddr(lptDenom).String()",
-    "types.GetReservePoolAddr(lptDenom)",
-    "k.GetPoolBalances(ctx, reservePoolAddress)",
-    "k.GetParams(ctx)"] := rfl
+    "p1.GetLptDenomFromDenoms(p2, p3.Denom, p4)",
+    "types.GetReservePoolAddr(v1).String()",
+    "types.GetReservePoolAddr(v1)",
+    "p1.GetPoolBalances(p2, v3)",
+    "p1.GetParams(p2)"] := rfl
 theorem calculateWithExactInput_stmts : Gen.Coinswap.calculateWithExactInput_stmts = [
-    "lptDenom, err := k.GetLptDenomFromDenoms(ctx, exactSoldCoin.Denom, boughtTokenDenom)",
-    "return sdkmath.ZeroInt(), err",
-    "reservePoolAddress := types.GetReservePoolAddr(lptDenom).String()",
-    "reservePool, err := k.GetPoolBalances(ctx, reservePoolAddress)",
-    "return sdkmath.ZeroInt(), err",
-    "inputReserve := reservePool.AmountOf(exactSoldCoin.Denom)",
-    "outputReserve := reservePool.AmountOf(boughtTokenDenom)",
-    "return sdkmath.ZeroInt(), errorsmod.Wrap(types.ErrInsufficientFunds, fmt.Sprintf(\"reserve pool insufficient funds, actual [%s%s]\", inputReserve.String(), exactSoldCoin.Denom))",
-    "return sdkmath.ZeroInt(), errorsmod.Wrap(types.ErrInsufficientFunds, fmt.Sprintf(\"reserve pool insufficient funds, actual [%s%s]\", outputReserve.String(), boughtTokenDenom))",
-    "param := k.GetParams(ctx)",
-    "boughtTokenAmt := GetInputPrice(exactSoldCoin.Amount, inputReserve, outputReserve, param.Fee)",
-    "return boughtTokenAmt, nil"] := rfl
+    "v1, v2 := p1.GetLptDenomFromDenoms(p2, p3.Denom, p4)",
+    "return sdkmath.ZeroInt(), v2",
+    "v3 := types.GetReservePoolAddr(v1).String()",
+    "v4, v2 := p1.GetPoolBalances(p2, v3)",
+    "return sdkmath.ZeroInt(), v2",
+    "v5 := v4.AmountOf(p3.Denom)",
+    "v6 := v4.AmountOf(p4)",
+    "return sdkmath.ZeroInt(), errorsmod.Wrap(types.ErrInsufficientFunds, fmt.Sprintf(\"reserve pool insufficient funds, actual [%s%s]\", v5.String(), p3.Denom))",
+    "return sdkmath.ZeroInt(), errorsmod.Wrap(types.ErrInsufficientFunds, fmt.Sprintf(\"reserve pool insufficient funds, actual [%s%s]\", v6.String(), p4))",
+    "v7 := p1.GetParams(p2)",
+    "v8 := GetInputPrice(p3.Amount, v5, v6, v7.Fee)",
+    "return v8, nil"] := rfl
 
 theorem tradeExactInputForOutput_guards : Gen.Coinswap.tradeExactInputForOutput_guards = [
-    "boughtTokenAmt.LT(output.Coin.Amount)",
-    "boughtToken.Denom != standardDenom",
-    "quoteCoinToSwap.Amount.GT(maxSwapAmount.Amount)",
-    "err: err := k.swapCoins(ctx, inputAddress, outputAddress, input.Coin, boughtToken)"] := rfl
+    "v1.LT(p4.Coin.Amount)",
+    "v3.Denom != v6",
+    "v7.Amount.GT(v8.Amount)",
+    "err: v2 := p1.swapCoins(p2, v4, v5, p3.Coin, v3)"] := rfl
 theorem tradeExactInputForOutput_calls : Gen.Coinswap.tradeExactInputForOutput_calls = [
-    "k.calculateWithExactInput(ctx, input.Coin, output.Coin.Denom)",
-    "sdk.NewCoin(output.Coin.Denom, boughtTokenAmt)",
-    "sdk.AccAddressFromBech32(input.Address)",
-    "sdk.AccAddressFromBech32(output.Address)",
-    "k.GetStandardDenom(ctx)",
-    "k.GetMaximumSwapAmount(ctx, quoteCoinToSwap.Denom)",
-    "k.swapCoins(ctx, inputAddress, outputAddress, input.Coin, boughtToken)"] := rfl
+    "p1.calculateWithExactInput(p2, p3.Coin, p4.Coin.Denom)",
+    "sdk.NewCoin(p4.Coin.Denom, v1)",
+    "sdk.AccAddressFromBech32(p3.Address)",
+    "sdk.AccAddressFromBech32(p4.Address)",
+    "p1.GetStandardDenom(p2)",
+    "p1.GetMaximumSwapAmount(p2, v7.Denom)",
+    "p1.swapCoins(p2, v4, v5, p3.Coin, v3)"] := rfl
 theorem tradeExactInputForOutput_stmts : Gen.Coinswap.tradeExactInputForOutput_stmts = [
-    "boughtTokenAmt, err := k.calculateWithExactInput(ctx, input.Coin, output.Coin.Denom)",
-    "return sdkmath.ZeroInt(), err",
-    "return sdkmath.ZeroInt(), errorsmod.Wrap(types.ErrConstraintNotMet, fmt.Sprintf(\"insufficient amount of %s, user expected: %s, actual: %s\", output.Coin.Denom, output.Coin.Amount.String(), boughtTokenAmt.String()))",
-    "boughtToken := sdk.NewCoin(output.Coin.Denom, boughtTokenAmt)",
-    "inputAddress, err := sdk.AccAddressFromBech32(input.Address)",
-    "return sdkmath.ZeroInt(), err",
-    "outputAddress, err := sdk.AccAddressFromBech32(output.Address)",
-    "return sdkmath.ZeroInt(), err",
-    "standardDenom, err := k.GetStandardDenom(ctx)",
-    "return sdkmath.Int{}, err",
-    "quoteCoinToSwap = boughtToken",
-    "quoteCoinToSwap = input.Coin",
-    "maxSwapAmount, err := k.GetMaximumSwapAmount(ctx, quoteCoinToSwap.Denom)",
-    "return sdkmath.ZeroInt(), err",
-    "return sdkmath.ZeroInt(), errorsmod.Wrap(types.ErrConstraintNotMet, fmt.Sprintf(\"expected swap amount %s%s exceeding swap amount limit %s%s\", quoteCoinToSwap.Amount.String(), quoteCoinToSwap.Denom, maxSwapAmount.Amount.String(), maxSwapAmount.Denom))",
-    "return sdkmath.ZeroInt(), err",
-    "return boughtTokenAmt, nil"] := rfl
+    "v1, v2 := p1.calculateWithExactInput(p2, p3.Coin, p4.Coin.Denom)",
+    "return sdkmath.ZeroInt(), v2",
+    "return sdkmath.ZeroInt(), errorsmod.Wrap(types.ErrConstraintNotMet, fmt.Sprintf(\"insufficient amount of %s, user expected: %s, actual: %s\", p4.Coin.Denom, p4.Coin.Amount.String(), v1.String()))",
+    "v3 := sdk.NewCoin(p4.Coin.Denom, v1)",
+    "v4, v2 := sdk.AccAddressFromBech32(p3.Address)",
+    "return sdkmath.ZeroInt(), v2",
+    "v5, v2 := sdk.AccAddressFromBech32(p4.Address)",
+    "return sdkmath.ZeroInt(), v2",
+    "v6, v2 := p1.GetStandardDenom(p2)",
+    "return sdkmath.Int{}, v2",
+    "v7 = v3",
+    "v7 = p3.Coin",
+    "v8, v2 := p1.GetMaximumSwapAmount(p2, v7.Denom)",
+    "return sdkmath.ZeroInt(), v2",
+    "return sdkmath.ZeroInt(), errorsmod.Wrap(types.ErrConstraintNotMet, fmt.Sprintf(\"expected swap amount %s%s exceeding swap amount limit %s%s\", v7.Amount.String(), v7.Denom, v8.Amount.String(), v8.Denom))",
+    "return sdkmath.ZeroInt(), v2",
+    "return v1, nil"] := rfl
 
 theorem calculateWithExactOutput_guards : Gen.Coinswap.calculateWithExactOutput_guards = [
-    "!inputReserve.IsPositive()",
-    "!outputReserve.IsPositive()",
-    "exactBoughtCoin.Amount.GTE(outputReserve)"] := rfl
+    "!v6.IsPositive()",
+    "!v5.IsPositive()",
+    "p3.Amount.GTE(v5)"] := rfl
 theorem calculateWithExactOutput_calls : Gen.Coinswap.calculateWithExactOutput_calls = [
-    "k.GetLptDenomFromDenoms(ctx, exactBoughtCoin.Denom, soldTokenDenom)",
-    "types.GetReservePoolAddr(lptDenom).String()",
-    "types.GetReservePoolAddr(lptDenom)",
-    "k.GetPoolBalances(ctx, poolAddr)",
-    "k.GetParams(ctx)"] := rfl
+    "p1.GetLptDenomFromDenoms(p2, p3.Denom, p4)",
+    "types.GetReservePoolAddr(v1).String()",
+    "types.GetReservePoolAddr(v1)",
+    "p1.GetPoolBalances(p2, v3)",
+    "p1.GetParams(p2)"] := rfl
 theorem calculateWithExactOutput_stmts : Gen.Coinswap.calculateWithExactOutput_stmts = [
-    "lptDenom, err := k.GetLptDenomFromDenoms(ctx, exactBoughtCoin.Denom, soldTokenDenom)",
-    "return sdkmath.ZeroInt(), err",
-    "poolAddr := types.GetReservePoolAddr(lptDenom).String()",
-    "reservePool, err := k.GetPoolBalances(ctx, poolAddr)",
-    "return sdkmath.ZeroInt(), err",
-    "outputReserve := reservePool.AmountOf(exactBoughtCoin.Denom)",
-    "inputReserve := reservePool.AmountOf(soldTokenDenom)",
-    "return sdkmath.ZeroInt(), errorsmod.Wrap(types.ErrInsufficientFunds, fmt.Sprintf(\"reserve pool insufficient balance: [%s%s]\", inputReserve.String(), soldTokenDenom))",
-    "return sdkmath.ZeroInt(), errorsmod.Wrap(types.ErrInsufficientFunds, fmt.Sprintf(\"reserve pool insufficient balance: [%s%s]\", outputReserve.String(), exactBoughtCoin.Denom))",
-    "return sdkmath.ZeroInt(), errorsmod.Wrap(types.ErrInsufficientFunds, fmt.Sprintf(\"reserve pool insufficient balance of %s, user expected: %s, actual: %s\", exactBoughtCoin.Denom, exactBoughtCoin.Amount.String(), outputReserve.String()))",
-    "param := k.GetParams(ctx)",
-    "soldTokenAmt := GetOutputPrice(exactBoughtCoin.Amount, inputReserve, outputReserve, param.Fee)",
-    "return soldTokenAmt, nil"] := rfl
+    "v1, v2 := p1.GetLptDenomFromDenoms(p2, p3.Denom, p4)",
+    "return sdkmath.ZeroInt(), v2",
+    "v3 := types.GetReservePoolAddr(v1).String()",
+    "v4, v2 := p1.GetPoolBalances(p2, v3)",
+    "return sdkmath.ZeroInt(), v2",
+    "v5 := v4.AmountOf(p3.Denom)",
+    "v6 := v4.AmountOf(p4)",
+    "return sdkmath.ZeroInt(), errorsmod.Wrap(types.ErrInsufficientFunds, fmt.Sprintf(\"reserve pool insufficient balance: [%s%s]\", v6.String(), p4))",
+    "return sdkmath.ZeroInt(), errorsmod.Wrap(types.ErrInsufficientFunds, fmt.Sprintf(\"reserve pool insufficient balance: [%s%s]\", v5.String(), p3.Denom))",
+    "return sdkmath.ZeroInt(), errorsmod.Wrap(types.ErrInsufficientFunds, fmt.Sprintf(\"reserve pool insufficient balance of %s, user expected: %s, actual: %s\", p3.Denom, p3.Amount.String(), v5.String()))",
+    "v7 := p1.GetParams(p2)",
+    "v8 := GetOutputPrice(p3.Amount, v6, v5, v7.Fee)",
+    "return v8, nil"] := rfl
 
 theorem tradeInputForExactOutput_guards : Gen.Coinswap.tradeInputForExactOutput_guards = [
-    "soldTokenAmt.GT(input.Coin.Amount)",
-    "soldToken.Denom != standardDenom",
-    "quoteCoinToSwap.Amount.GT(maxSwapAmount.Amount)",
-    "err: err := k.swapCoins(ctx, inputAddress, outputAddress, soldToken, output.Coin)"] := rfl
+    "v1.GT(p3.Coin.Amount)",
+    "v3.Denom != v6",
+    "v7.Amount.GT(v8.Amount)",
+    "err: v2 := p1.swapCoins(p2, v4, v5, v3, p4.Coin)"] := rfl
 theorem tradeInputForExactOutput_calls : Gen.Coinswap.tradeInputForExactOutput_calls = [
-    "k.calculateWithExactOutput(ctx, output.Coin, input.Coin.Denom)",
-    "sdk.NewCoin(input.Coin.Denom, soldTokenAmt)",
-    "sdk.AccAddressFromBech32(input.Address)",
-    "sdk.AccAddressFromBech32(output.Address)",
-    "k.GetStandardDenom(ctx)",
-    "k.GetMaximumSwapAmount(ctx, quoteCoinToSwap.Denom)",
-    "k.swapCoins(ctx, inputAddress, outputAddress, soldToken, output.Coin)"] := rfl
+    "p1.calculateWithExactOutput(p2, p4.Coin, p3.Coin.Denom)",
+    "sdk.NewCoin(p3.Coin.Denom, v1)",
+    "sdk.AccAddressFromBech32(p3.Address)",
+    "sdk.AccAddressFromBech32(p4.Address)",
+    "p1.GetStandardDenom(p2)",
+    "p1.GetMaximumSwapAmount(p2, v7.Denom)",
+    "p1.swapCoins(p2, v4, v5, v3, p4.Coin)"] := rfl
 theorem tradeInputForExactOutput_stmts : Gen.Coinswap.tradeInputForExactOutput_stmts = [
-    "soldTokenAmt, err := k.calculateWithExactOutput(ctx, output.Coin, input.Coin.Denom)",
-    "return sdkmath.ZeroInt(), err",
-    "return sdkmath.ZeroInt(), errorsmod.Wrap(types.ErrConstraintNotMet, fmt.Sprintf(\"insufficient amount of %s, user expected: %s, actual: %s\", input.Coin.Denom, input.Coin.Amount.String(), soldTokenAmt.String()))",
-    "soldToken := sdk.NewCoin(input.Coin.Denom, soldTokenAmt)",
-    "inputAddress, err := sdk.AccAddressFromBech32(input.Address)",
-    "return sdkmath.ZeroInt(), err",
-    "outputAddress, err := sdk.AccAddressFromBech32(output.Address)",
-    "return sdkmath.ZeroInt(), err",
-    "standardDenom, err := k.GetStandardDenom(ctx)",
-    "return sdkmath.Int{}, err",
-    "quoteCoinToSwap = soldToken",
-    "quoteCoinToSwap = output.Coin",
-    "maxSwapAmount, err := k.GetMaximumSwapAmount(ctx, quoteCoinToSwap.Denom)",
-    "return sdkmath.ZeroInt(), err",
-    "return sdkmath.ZeroInt(), errorsmod.Wrap(types.ErrConstraintNotMet, fmt.Sprintf(\"expected swap amount %s%s exceeding swap amount limit %s%s\", quoteCoinToSwap.Amount.String(), quoteCoinToSwap.Denom, maxSwapAmount.Amount.String(), maxSwapAmount.Denom))",
-    "return sdkmath.ZeroInt(), err",
-    "return soldTokenAmt, nil"] := rfl
+    "v1, v2 := p1.calculateWithExactOutput(p2, p4.Coin, p3.Coin.Denom)",
+    "return sdkmath.ZeroInt(), v2",
+    "return sdkmath.ZeroInt(), errorsmod.Wrap(types.ErrConstraintNotMet, fmt.Sprintf(\"insufficient amount of %s, user expected: %s, actual: %s\", p3.Coin.Denom, p3.Coin.Amount.String(), v1.String()))",
+    "v3 := sdk.NewCoin(p3.Coin.Denom, v1)",
+    "v4, v2 := sdk.AccAddressFromBech32(p3.Address)",
+    "return sdkmath.ZeroInt(), v2",
+    "v5, v2 := sdk.AccAddressFromBech32(p4.Address)",
+    "return sdkmath.ZeroInt(), v2",
+    "v6, v2 := p1.GetStandardDenom(p2)",
+    "return sdkmath.Int{}, v2",
+    "v7 = v3",
+    "v7 = p4.Coin",
+    "v8, v2 := p1.GetMaximumSwapAmount(p2, v7.Denom)",
+    "return sdkmath.ZeroInt(), v2",
+    "return sdkmath.ZeroInt(), errorsmod.Wrap(types.ErrConstraintNotMet, fmt.Sprintf(\"expected swap amount %s%s exceeding swap amount limit %s%s\", v7.Amount.String(), v7.Denom, v8.Amount.String(), v8.Denom))",
+    "return sdkmath.ZeroInt(), v2",
+    "return v1, nil"] := rfl
 
 theorem getMaximumSwapAmount_guards : Gen.Coinswap.getMaximumSwapAmount_guards = [
-    "coin.Denom == denom"] := rfl
+    "v2.Denom == p3"] := rfl
 theorem getMaximumSwapAmount_calls : Gen.Coinswap.getMaximumSwapAmount_calls = [
-    "k.GetParams(ctx)"] := rfl
+    "p1.GetParams(p2)"] := rfl
 theorem getMaximumSwapAmount_stmts : Gen.Coinswap.getMaximumSwapAmount_stmts = [
-    "params := k.GetParams(ctx)",
-    "return coin, nil",
-    "return sdk.Coin{}, errorsmod.Wrap(types.ErrInvalidDenom, fmt.Sprintf(\"invalid denom: %s, denom is not whitelisted\", denom))"] := rfl
+    "v1 := p1.GetParams(p2)",
+    "return v2, nil",
+    "return sdk.Coin{}, errorsmod.Wrap(types.ErrInvalidDenom, fmt.Sprintf(\"invalid denom: %s, denom is not whitelisted\", p3))"] := rfl
 
 theorem deductPoolCreationFee_guards : Gen.Coinswap.deductPoolCreationFee_guards = [
-    "err: err := k.bk.SendCoinsFromAccountToModule( ctx, creator, types.ModuleName, sdk.NewCoins(poolCreationFee), )",
-    "err: err := k.bk.SendCoinsFromModuleToModule(ctx, types.ModuleName, k.feeCollectorName, sdk.NewCoins(communityTaxCoin))"] := rfl
+    "err: v5 := p1.bk.SendCoinsFromAccountToModule( p2, p3, types.ModuleName, sdk.NewCoins(v2), )",
+    "err: v5 := p1.bk.SendCoinsFromModuleToModule(p2, types.ModuleName, p1.feeCollectorName, sdk.NewCoins(v3))"] := rfl
 theorem deductPoolCreationFee_calls : Gen.Coinswap.deductPoolCreationFee_calls = [
-    "k.GetParams(ctx)",
-    "sdk.NewCoin(poolCreationFee.Denom, sdkmath.LegacyNewDecFromInt(poolCreationFee.Amount).Mul(params.TaxRate).TruncateInt())",
-    "sdk.NewCoins(poolCreationFee.Sub(communityTaxCoin))",
-    "k.bk.SendCoinsFromAccountToModule( ctx, creator, types.ModuleName, sdk.NewCoins(poolCreationFee), )",
-    "sdk.NewCoins(poolCreationFee)",
-    "k.bk.SendCoinsFromModuleToModule(ctx, types.ModuleName, k.feeCollectorName, sdk.NewCoins(communityTaxCoin))",
-    "sdk.NewCoins(communityTaxCoin)",
-    "k.bk.BurnCoins(ctx, types.ModuleName, burnedCoins)"] := rfl
+    "p1.GetParams(p2)",
+    "sdk.NewCoin(v2.Denom, sdkmath.LegacyNewDecFromInt(v2.Amount).Mul(v1.TaxRate).TruncateInt())",
+    "sdk.NewCoins(v2.Sub(v3))",
+    "p1.bk.SendCoinsFromAccountToModule( p2, p3, types.ModuleName, sdk.NewCoins(v2), )",
+    "sdk.NewCoins(v2)",
+    "p1.bk.SendCoinsFromModuleToModule(p2, types.ModuleName, p1.feeCollectorName, sdk.NewCoins(v3))",
+    "sdk.NewCoins(v3)",
+    "p1.bk.BurnCoins(p2, types.ModuleName, v4)"] := rfl
 theorem deductPoolCreationFee_stmts : Gen.Coinswap.deductPoolCreationFee_stmts = [
-    "params := k.GetParams(ctx)",
-    "poolCreationFee := params.PoolCreationFee",
-    "communityTaxCoin := sdk.NewCoin(poolCreationFee.Denom, sdkmath.LegacyNewDecFromInt(poolCreationFee.Amount).Mul(params.TaxRate).TruncateInt())",
-    "burnedCoins := sdk.NewCoins(poolCreationFee.Sub(communityTaxCoin))",
-    "return err",
-    "return err",
-    "return k.bk.BurnCoins(ctx, types.ModuleName, burnedCoins)"] := rfl
+    "v1 := p1.GetParams(p2)",
+    "v2 := v1.PoolCreationFee",
+    "v3 := sdk.NewCoin(v2.Denom, sdkmath.LegacyNewDecFromInt(v2.Amount).Mul(v1.TaxRate).TruncateInt())",
+    "v4 := sdk.NewCoins(v2.Sub(v3))",
+    "return v5",
+    "return v5",
+    "return p1.bk.BurnCoins(p2, types.ModuleName, v4)"] := rfl
 
 theorem createPool_guards : Gen.Coinswap.createPool_guards = [] := rfl
 theorem createPool_calls : Gen.Coinswap.createPool_calls = [
-    "k.GetStandardDenom(ctx)",
-    "k.getSequence(ctx)",
-    "types.GetLptDenom(sequence)",
-    "types.GetPoolId(counterpartyDenom)",
-    "types.GetReservePoolAddr(lptDenom).String()",
-    "types.GetReservePoolAddr(lptDenom)",
-    "k.setSequence(ctx, sequence+1)",
-    "k.setPool(ctx, pool)"] := rfl
+    "p1.GetStandardDenom(p2)",
+    "p1.getSequence(p2)",
+    "types.GetLptDenom(v2)",
+    "types.GetPoolId(p3)",
+    "types.GetReservePoolAddr(v3).String()",
+    "types.GetReservePoolAddr(v3)",
+    "p1.setSequence(p2, v2+1)",
+    "p1.setPool(p2, v4)"] := rfl
 theorem createPool_stmts : Gen.Coinswap.createPool_stmts = [
-    "standardDenom, _ := k.GetStandardDenom(ctx)",
-    "sequence := k.getSequence(ctx)",
-    "lptDenom := types.GetLptDenom(sequence)",
-    "pool := &types.Pool{ Id: types.GetPoolId(counterpartyDenom), StandardDenom: standardDenom, CounterpartyDenom: counterpartyDenom, EscrowAddress: types.GetReservePoolAddr(lptDenom).String(), LptDenom: lptDenom, }",
-    "return *pool"] := rfl
+    "v1, _ := p1.GetStandardDenom(p2)",
+    "v2 := p1.getSequence(p2)",
+    "v3 := types.GetLptDenom(v2)",
+    "v4 := &types.Pool{ Id: types.GetPoolId(p3), StandardDenom: v1, CounterpartyDenom: p3, EscrowAddress: types.GetReservePoolAddr(v3).String(), LptDenom: v3, }",
+    "return *v4"] := rfl
 
 theorem getPoolBalances_guards : Gen.Coinswap.getPoolBalances_guards = [
-    "acc == nil"] := rfl
+    "v4 == nil"] := rfl
 theorem getPoolBalances_calls : Gen.Coinswap.getPoolBalances_calls = [
-    "sdk.AccAddressFromBech32(escrowAddress)",
-    "k.ak.GetAccount(ctx, address)",
-    "k.bk.GetAllBalances(ctx, acc.GetAddress())"] := rfl
+    "sdk.AccAddressFromBech32(p3)",
+    "p1.ak.GetAccount(p2, v3)",
+    "p1.bk.GetAllBalances(p2, v4.GetAddress())"] := rfl
 theorem getPoolBalances_stmts : Gen.Coinswap.getPoolBalances_stmts = [
-    "address, err := sdk.AccAddressFromBech32(escrowAddress)",
-    "return coins, err",
-    "acc := k.ak.GetAccount(ctx, address)",
-    "return nil, errorsmod.Wrap(types.ErrReservePoolNotExists, escrowAddress)",
-    "return k.bk.GetAllBalances(ctx, acc.GetAddress()), nil"] := rfl
+    "v3, v2 := sdk.AccAddressFromBech32(p3)",
+    "return v1, v2",
+    "v4 := p1.ak.GetAccount(p2, v3)",
+    "return nil, errorsmod.Wrap(types.ErrReservePoolNotExists, p3)",
+    "return p1.bk.GetAllBalances(p2, v4.GetAddress()), nil"] := rfl
 
 theorem getLptDenomFromDenoms_guards : Gen.Coinswap.getLptDenomFromDenoms_guards = [
-    "denom1 == denom2",
-    "denom1 != standardDenom && denom2 != standardDenom",
-    "counterpartyDenom == standardDenom",
-    "!has"] := rfl
+    "p3 == p4",
+    "p3 != v1 && p4 != v1",
+    "v2 == v1",
+    "!v5"] := rfl
 theorem getLptDenomFromDenoms_calls : Gen.Coinswap.getLptDenomFromDenoms_calls = [
-    "k.GetStandardDenom(ctx)",
-    "types.GetPoolId(counterpartyDenom)",
-    "k.GetPool(ctx, poolId)"] := rfl
+    "p1.GetStandardDenom(p2)",
+    "types.GetPoolId(v2)",
+    "p1.GetPool(p2, v3)"] := rfl
 theorem getLptDenomFromDenoms_stmts : Gen.Coinswap.getLptDenomFromDenoms_stmts = [
     "return \"\", types.ErrEqualDenom",
-    "standardDenom, _ := k.GetStandardDenom(ctx)",
-    "return \"\", errorsmod.Wrap(types.ErrNotContainStandardDenom, fmt.Sprintf(\"standard denom: %s, denom1: %s, denom2: %s\", standardDenom, denom1, denom2))",
-    "counterpartyDenom := denom1",
-    "counterpartyDenom = denom2",
-    "poolId := types.GetPoolId(counterpartyDenom)",
-    "pool, has := k.GetPool(ctx, poolId)",
-    "return \"\", errorsmod.Wrapf(types.ErrReservePoolNotExists, \"liquidity pool token: %s\", counterpartyDenom)",
-    "return pool.LptDenom, nil"] := rfl
+    "v1, _ := p1.GetStandardDenom(p2)",
+    "return \"\", errorsmod.Wrap(types.ErrNotContainStandardDenom, fmt.Sprintf(\"standard denom: %s, denom1: %s, denom2: %s\", v1, p3, p4))",
+    "v2 := p3",
+    "v2 = p4",
+    "v3 := types.GetPoolId(v2)",
+    "v4, v5 := p1.GetPool(p2, v3)",
+    "return \"\", errorsmod.Wrapf(types.ErrReservePoolNotExists, \"liquidity pool token: %s\", v2)",
+    "return v4.LptDenom, nil"] := rfl
 
 theorem validateInput_guards : Gen.Coinswap.validateInput_guards = [
-    "!(input.Coin.IsValid() && input.Coin.IsPositive())",
-    "strings.HasPrefix(input.Coin.Denom, LptTokenPrefix)",
-    "err: _, err := sdk.AccAddressFromBech32(input.Address)"] := rfl
+    "!(p1.Coin.IsValid() && p1.Coin.IsPositive())",
+    "strings.HasPrefix(p1.Coin.Denom, LptTokenPrefix)",
+    "err: _, v1 := sdk.AccAddressFromBech32(p1.Address)"] := rfl
 theorem validateInput_calls : Gen.Coinswap.validateInput_calls = [
-    "sdk.AccAddressFromBech32(input.Address)"] := rfl
+    "sdk.AccAddressFromBech32(p1.Address)"] := rfl
 theorem validateInput_stmts : Gen.Coinswap.validateInput_stmts = [
-    "return errorsmod.Wrapf(sdkerrors.ErrInvalidCoins, \"invalid input (%s)\", input.Coin.String())",
+    "return errorsmod.Wrapf(sdkerrors.ErrInvalidCoins, \"invalid input (%s)\", p1.Coin.String())",
     "return errorsmod.Wrapf(sdkerrors.ErrInvalidRequest, \"invalid input denom, should not begin with (%s)\", LptTokenPrefix)",
-    "_, err := sdk.AccAddressFromBech32(input.Address)",
-    "return errorsmod.Wrapf(sdkerrors.ErrInvalidAddress, \"invalid input address (%s)\", err)",
+    "_, v1 := sdk.AccAddressFromBech32(p1.Address)",
+    "return errorsmod.Wrapf(sdkerrors.ErrInvalidAddress, \"invalid input address (%s)\", v1)",
     "return nil"] := rfl
 
 theorem validateOutput_guards : Gen.Coinswap.validateOutput_guards = [
-    "!(output.Coin.IsValid() && output.Coin.IsPositive())",
-    "strings.HasPrefix(output.Coin.Denom, LptTokenPrefix)",
-    "err: _, err := sdk.AccAddressFromBech32(output.Address)"] := rfl
+    "!(p1.Coin.IsValid() && p1.Coin.IsPositive())",
+    "strings.HasPrefix(p1.Coin.Denom, LptTokenPrefix)",
+    "err: _, v1 := sdk.AccAddressFromBech32(p1.Address)"] := rfl
 theorem validateOutput_calls : Gen.Coinswap.validateOutput_calls = [
-    "sdk.AccAddressFromBech32(output.Address)"] := rfl
+    "sdk.AccAddressFromBech32(p1.Address)"] := rfl
 theorem validateOutput_stmts : Gen.Coinswap.validateOutput_stmts = [
-    "return errorsmod.Wrapf(sdkerrors.ErrInvalidCoins, \"invalid output (%s)\", output.Coin.String())",
+    "return errorsmod.Wrapf(sdkerrors.ErrInvalidCoins, \"invalid output (%s)\", p1.Coin.String())",
     "return errorsmod.Wrapf(sdkerrors.ErrInvalidRequest, \"invalid output denom, should not begin with (%s)\", LptTokenPrefix)",
-    "_, err := sdk.AccAddressFromBech32(output.Address)",
-    "return errorsmod.Wrapf(sdkerrors.ErrInvalidAddress, \"invalid output address (%s)\", err)",
+    "_, v1 := sdk.AccAddressFromBech32(p1.Address)",
+    "return errorsmod.Wrapf(sdkerrors.ErrInvalidAddress, \"invalid output address (%s)\", v1)",
     "return nil"] := rfl
 
 theorem validateDeadline_guards : Gen.Coinswap.validateDeadline_guards = [
-    "deadline <= 0"] := rfl
+    "p1 <= 0"] := rfl
 theorem validateDeadline_calls : Gen.Coinswap.validateDeadline_calls = [] := rfl
 theorem validateDeadline_stmts : Gen.Coinswap.validateDeadline_stmts = [
-    "return errorsmod.Wrap(sdkerrors.ErrInvalidRequest, fmt.Sprintf(\"deadline %d must be greater than 0\", deadline))",
+    "return errorsmod.Wrap(sdkerrors.ErrInvalidRequest, fmt.Sprintf(\"deadline %d must be greater than 0\", p1))",
     "return nil"] := rfl
 
 theorem validateMaxToken_guards : Gen.Coinswap.validateMaxToken_guards = [
-    "!(maxToken.IsValid() && maxToken.IsPositive())",
-    "strings.HasPrefix(maxToken.Denom, LptTokenPrefix)"] := rfl
+    "!(p1.IsValid() && p1.IsPositive())",
+    "strings.HasPrefix(p1.Denom, LptTokenPrefix)"] := rfl
 theorem validateMaxToken_calls : Gen.Coinswap.validateMaxToken_calls = [] := rfl
 theorem validateMaxToken_stmts : Gen.Coinswap.validateMaxToken_stmts = [
-    "return errorsmod.Wrapf(sdkerrors.ErrInvalidCoins, \"invalid maxToken (%s)\", maxToken.String())",
+    "return errorsmod.Wrapf(sdkerrors.ErrInvalidCoins, \"invalid maxToken (%s)\", p1.String())",
     "return errorsmod.Wrap(sdkerrors.ErrInvalidRequest, \"max token must be non-liquidity token\")",
     "return nil"] := rfl
 
 theorem validateExactStandardAmt_guards : Gen.Coinswap.validateExactStandardAmt_guards = [
-    "!standardAmt.IsPositive()"] := rfl
+    "!p1.IsPositive()"] := rfl
 theorem validateExactStandardAmt_calls : Gen.Coinswap.validateExactStandardAmt_calls = [] := rfl
 theorem validateExactStandardAmt_stmts : Gen.Coinswap.validateExactStandardAmt_stmts = [
     "return errorsmod.Wrap(sdkerrors.ErrInvalidRequest, \"standard token amount must be positive\")",
     "return nil"] := rfl
 
 theorem validateMinLiquidity_guards : Gen.Coinswap.validateMinLiquidity_guards = [
-    "minLiquidity.IsNegative()"] := rfl
+    "p1.IsNegative()"] := rfl
 theorem validateMinLiquidity_calls : Gen.Coinswap.validateMinLiquidity_calls = [] := rfl
 theorem validateMinLiquidity_stmts : Gen.Coinswap.validateMinLiquidity_stmts = [
     "return errorsmod.Wrap(sdkerrors.ErrInvalidRequest, \"minimum liquidity can not be negative\")",
     "return nil"] := rfl
 
 theorem validateMinToken_guards : Gen.Coinswap.validateMinToken_guards = [
-    "minToken.IsNegative()"] := rfl
+    "p1.IsNegative()"] := rfl
 theorem validateMinToken_calls : Gen.Coinswap.validateMinToken_calls = [] := rfl
 theorem validateMinToken_stmts : Gen.Coinswap.validateMinToken_stmts = [
     "return errorsmod.Wrap(sdkerrors.ErrInvalidCoins, \"minimum token amount can not be negative\")",
     "return nil"] := rfl
 
 theorem validateWithdrawLiquidity_guards : Gen.Coinswap.validateWithdrawLiquidity_guards = [
-    "!liquidity.IsValid() || !liquidity.IsPositive()",
-    "err: err := ValidateLptDenom(liquidity.Denom)"] := rfl
+    "!p1.IsValid() || !p1.IsPositive()",
+    "err: v1 := ValidateLptDenom(p1.Denom)"] := rfl
 theorem validateWithdrawLiquidity_calls : Gen.Coinswap.validateWithdrawLiquidity_calls = [] := rfl
 theorem validateWithdrawLiquidity_stmts : Gen.Coinswap.validateWithdrawLiquidity_stmts = [
-    "return errorsmod.Wrapf(sdkerrors.ErrInvalidCoins, \"invalid withdrawLiquidity (%s)\", liquidity.String())",
-    "return err",
+    "return errorsmod.Wrapf(sdkerrors.ErrInvalidCoins, \"invalid withdrawLiquidity (%s)\", p1.String())",
+    "return v1",
     "return nil"] := rfl
 
 theorem validateMinStandardAmt_guards : Gen.Coinswap.validateMinStandardAmt_guards = [
-    "minStandardAmt.IsNegative()"] := rfl
+    "p1.IsNegative()"] := rfl
 theorem validateMinStandardAmt_calls : Gen.Coinswap.validateMinStandardAmt_calls = [] := rfl
 theorem validateMinStandardAmt_stmts : Gen.Coinswap.validateMinStandardAmt_stmts = [
-    "return errorsmod.Wrap(sdkerrors.ErrInvalidRequest, fmt.Sprintf(\"minimum standard token amount %s can not be negative\", minStandardAmt.String()))",
+    "return errorsmod.Wrap(sdkerrors.ErrInvalidRequest, fmt.Sprintf(\"minimum standard token amount %s can not be negative\", p1.String()))",
     "return nil"] := rfl
 
 theorem validateLptDenom_guards : Gen.Coinswap.validateLptDenom_guards = [
-    "err: _, err := ParseLptDenom(lptDenom)"] := rfl
+    "err: _, v1 := ParseLptDenom(p1)"] := rfl
 theorem validateLptDenom_calls : Gen.Coinswap.validateLptDenom_calls = [] := rfl
 theorem validateLptDenom_stmts : Gen.Coinswap.validateLptDenom_stmts = [
-    "_, err := ParseLptDenom(lptDenom)",
-    "return errorsmod.Wrap(ErrInvalidDenom, lptDenom)",
+    "_, v1 := ParseLptDenom(p1)",
+    "return errorsmod.Wrap(ErrInvalidDenom, p1)",
     "return nil"] := rfl
 
 theorem parseLptDenom_guards : Gen.Coinswap.parseLptDenom_guards = [
-    "len(result) != 2"] := rfl
+    "len(v1) != 2"] := rfl
 theorem parseLptDenom_calls : Gen.Coinswap.parseLptDenom_calls = [] := rfl
 theorem parseLptDenom_stmts : Gen.Coinswap.parseLptDenom_stmts = [
-    "result := strings.Split(lptDenom, \"-\")",
-    "return 0, fmt.Errorf(\"invalid lpt denom: %s\", lptDenom)",
-    "return strconv.ParseUint(result[1], 10, 64)"] := rfl
+    "v1 := strings.Split(p1, \"-\")",
+    "return 0, fmt.Errorf(\"invalid lpt denom: %s\", p1)",
+    "return strconv.ParseUint(v1[1], 10, 64)"] := rfl
 
 theorem getReservePoolAddr_guards : Gen.Coinswap.getReservePoolAddr_guards = [] := rfl
 theorem getReservePoolAddr_calls : Gen.Coinswap.getReservePoolAddr_calls = [] := rfl
 theorem getReservePoolAddr_stmts : Gen.Coinswap.getReservePoolAddr_stmts = [
-    "return sdk.AccAddress(crypto.AddressHash([]byte(lptDenom)))"] := rfl
+    "return sdk.AccAddress(crypto.AddressHash([]byte(p1)))"] := rfl
 
 theorem getLptDenom_guards : Gen.Coinswap.getLptDenom_guards = [] := rfl
 theorem getLptDenom_calls : Gen.Coinswap.getLptDenom_calls = [] := rfl
 theorem getLptDenom_stmts : Gen.Coinswap.getLptDenom_stmts = [
-    "return fmt.Sprintf(LptTokenFormat, sequence)"] := rfl
+    "return fmt.Sprintf(LptTokenFormat, p1)"] := rfl
 
 end CV.Bridge.CoinswapFacts
